@@ -109,7 +109,7 @@ def proof_race_cases(tier, seed):
     at its start so that it looks at the index while blocks are undone and the (slow) daemon has not delivered the new ones.'''
     rng = random.Random(seed * 7919 + 11)
     cases = []
-    for j in range(24 if tier == 'quick' else 300):
+    for j in range(36 if tier == 'quick' else 360):
         script = [('hsub', 0), ('sub', 0, 0), ('sleep', 6)]
         if j % 6 == 3:
             # blocks with several txs replaced by coinbase-only blocks; a request every second while the replacements are fetched,
